@@ -1,0 +1,6 @@
+//! Verification hooks: compiled only with `--features verif`.
+//! Re-exports crate-private items so that the external harness in /verif can drive them.
+//! Nothing here changes behaviour; with the feature off this module does not exist.
+
+pub use crate::item::{parse_criteria, ItemPool, MatchedItem, RankBuilder, RankCriteria};
+pub use crate::orderedvec::OrderedVec;
